@@ -85,6 +85,8 @@ pub enum StdinKind {
     /// The bytes arrive on a pipe in separate bursts, with a pause (milliseconds)
     /// after each burst; the pipe is closed after the last one.
     Bursts(Vec<Vec<u8>>, u64),
+    /// Standard input is an open directory (`xt < /some/dir`): every read fails with EISDIR.
+    Directory,
 }
 
 pub struct Run<'a> {
@@ -283,6 +285,12 @@ fn run_inner(r: Run, arg0: Option<&str>) -> ProcOut {
         StdinKind::Bytes(_) | StdinKind::BytesAfterConsumerLeft(_) | StdinKind::Bursts(..) => {
             cmd.stdin(Stdio::piped());
         }
+        StdinKind::Directory => match File::open(r.cwd) {
+            Ok(f) => {
+                cmd.stdin(Stdio::from(f));
+            }
+            Err(e) => return ProcOut { status: Status::SpawnError(e.to_string()), stdout: vec![], stderr: vec![] },
+        },
         StdinKind::FileAtOffset(b, off) => {
             use std::io::{Seek, SeekFrom};
             let p = r.cwd.join(format!(".stdin-{}", SCRATCH_N.fetch_add(1, Ordering::Relaxed)));
@@ -414,7 +422,7 @@ fn run_inner(r: Run, arg0: Option<&str>) -> ProcOut {
                 }
             }))
         }
-        StdinKind::Null | StdinKind::FileAtOffset(..) => None,
+        StdinKind::Null | StdinKind::FileAtOffset(..) | StdinKind::Directory => None,
     };
     // stderr reader
     let mut se = child.stderr.take().unwrap();
